@@ -181,6 +181,6 @@ let run_op (op : string) (args : string list) : string =
   | "inscope", [ sch; nv ] ->
     let s = schema_of_sexp (parse_sexp sch) in
     let v = nvalue_of_sexp (parse_sexp nv) in
-    (if in_scope s then "1" else "0") ^ (if unamb v then "1" else "0")
+    (if in_scope s then "1" else "0") ^ (if unamb v then "1" else "0") ^ (if small_seqs v then "1" else "0")
   | _ -> failwith ("unknown op " ^ op)
 
